@@ -399,6 +399,11 @@ func VerifC01_RoundTrip() {
 		return
 	}
 	m := &l.authorizationModel
+	// the first model is the document (also guards the printer against a malformed, e.g. cyclic, model)
+	checkModelIsReading(d, m, l.typeDefExtensions)
+	if zzverif.Failed() {
+		return
+	}
 	text, err := TransformJSONProtoToDSL(m)
 	zzverif.Assert(err == nil, "model-from-the-parser-renders-directly")
 	if err != nil {
